@@ -482,6 +482,9 @@ Proof.
       * apply wf_set_buf_ge; auto; cbn [rows cap]; rewrite LR0, <- LR; [exact HC|apply le_n].
   - (* OAppendBad: a refusal *)
     destruct (is_live st i); simpl; auto. destruct (offs (getseq st i)), (scache (getseq st i)); simpl; auto.
+  - (* OOpRefused: a refusal *)
+    destruct (is_live st i && _); simpl; auto.
+    destruct oj as [j|]; [destruct (negb _ || negb _)|]; simpl; auto; destruct (offs (getseq st i)); simpl; auto.
   - (* OShrink *)
     destruct (is_live st i) eqn:L; simpl; auto. apply is_live_lt in L.
     destruct (scache (getseq st i)) eqn:Ec; simpl; auto. apply wf_shrink; auto.
